@@ -71,7 +71,7 @@ def real_sessions(ctx, libs, per_lib, unit_stride, tags, report, seed):
                 probes.add(float(lib[g]['thermochem'].T_ref))
             if r is not None:
                 probes.update([float(r[0]), float(r[1])])
-            probes = sorted(p for p in probes if p in rank)[:5]
+            probes = sorted(p for p in probes if p in rank and p > 0)[:5]      # (H/RT has no value at 0 K)
             for p in ('Cp', 'H', 'S', 'G'):
                 for T in probes:
                     k2, v, warns = call(getattr(est, cl.GETTERS[p]), T)
